@@ -19,6 +19,9 @@ Families (--family NAME, default all, one copy per family):
   test-temp       if EXPR: ...               ->  cond__N = EXPR; if cond__N: ...
   wrap-else       if C: ...return; REST      ->  if C: ...return  else: REST
   unwrap-else     the reverse, for an if/else that ends a block
+  del-to-pop      del X[k]                   ->  X.pop(k)
+  return-bool     if T: return True [else:] return False  ->  return bool(T);  with False / True  ->  return not T
+  suppress        try: BODY except E: pass   ->  with contextlib.suppress(E): BODY
   pos-to-kw       f(a, b, c) -> f(a, y=b, z=c)   for calls of module-level repository functions (resolved by unique name)
   kw-to-pos       f(a, y=b) -> f(a, b)           where the keyword is the next parameter and the first keyword written
 Usage: tools/syntax_variants.py [--family F]... [--per-file] [--validate] [path prefixes, default proxy/]
@@ -267,6 +270,88 @@ class UnwrapElse(ast.NodeTransformer):
         return node
 
 
+class DelToPop(ast.NodeTransformer):
+    """del X[k] -> X.pop(k)   (one target, an index not a slice: the same removal and the same KeyError / IndexError on dicts and lists)"""
+    n = 0
+
+    def visit_Delete(self, node: ast.Delete) -> ast.AST:
+        if len(node.targets) == 1 and isinstance(node.targets[0], ast.Subscript) and not isinstance(node.targets[0].slice, (ast.Slice, ast.Tuple)):
+            t = node.targets[0]
+            self.n += 1
+            return ast.Expr(value=ast.Call(func=ast.Attribute(value=t.value, attr='pop', ctx=ast.Load()), args=[t.slice], keywords=[]))
+        return node
+
+
+class ReturnBool(ast.NodeTransformer):
+    """if T: return True [else:] return False  ->  return bool(T);     if T: return False [else:] return True  ->  return not T"""
+    n = 0
+
+    @staticmethod
+    def _const(s: ast.stmt) -> Optional[bool]:
+        if isinstance(s, ast.Return) and isinstance(s.value, ast.Constant) and isinstance(s.value.value, bool):
+            return s.value.value
+        return None
+
+    def _block(self, body: List[ast.stmt]) -> List[ast.stmt]:
+        out: List[ast.stmt] = []
+        i = 0
+        while i < len(body):
+            s = body[i]
+            if isinstance(s, ast.If) and len(s.body) == 1 and self._const(s.body[0]) is not None and \
+                    not any(isinstance(x, (ast.NamedExpr, ast.Await, ast.Yield)) for x in ast.walk(s.test)):
+                a = self._const(s.body[0])
+                b = None
+                used = 0
+                if len(s.orelse) == 1 and self._const(s.orelse[0]) is not None:
+                    b = self._const(s.orelse[0])
+                elif not s.orelse and i + 1 < len(body) and self._const(body[i + 1]) is not None:
+                    b, used = self._const(body[i + 1]), 1
+                if b is not None and a != b:
+                    self.n += 1
+                    v: ast.expr = ast.Call(func=ast.Name(id='bool', ctx=ast.Load()), args=[s.test], keywords=[]) if a else ast.UnaryOp(op=ast.Not(), operand=s.test)
+                    out.append(ast.Return(value=v, lineno=s.lineno))
+                    i += 1 + used
+                    continue
+            out.append(s)
+            i += 1
+        return out
+
+    def generic_visit(self, node: ast.AST) -> ast.AST:
+        super().generic_visit(node)
+        for f in ('body', 'orelse', 'finalbody'):
+            b = getattr(node, f, None)
+            if isinstance(b, list) and b and isinstance(b[0], ast.stmt) and not isinstance(node, (ast.ClassDef, ast.Module)):
+                setattr(node, f, self._block(b))
+        return node
+
+
+class Suppress(ast.NodeTransformer):
+    """try: BODY except E: pass   ->   with contextlib.suppress(E): BODY     (one handler without a name, no else / finally; BODY free of
+    break / continue / yield so that it means the same inside a with block -- it does anyway, this only keeps the rewrite obviously exact)"""
+    n = 0
+
+    def visit_Try(self, node: ast.Try) -> ast.AST:
+        self.generic_visit(node)
+        if len(node.handlers) == 1 and node.handlers[0].type is not None and node.handlers[0].name is None and not node.orelse and not node.finalbody and \
+                len(node.handlers[0].body) == 1 and isinstance(node.handlers[0].body[0], ast.Pass) and \
+                not any(isinstance(x, (ast.Yield, ast.YieldFrom, ast.Await)) for b in node.body for x in ast.walk(b)):
+            typ = node.handlers[0].type
+            args = list(typ.elts) if isinstance(typ, ast.Tuple) else [typ]
+            self.n += 1
+            ctx = ast.Call(func=ast.Attribute(value=ast.Name(id='contextlib', ctx=ast.Load()), attr='suppress', ctx=ast.Load()), args=args, keywords=[])
+            return ast.With(items=[ast.withitem(context_expr=ctx, optional_vars=None)], body=node.body, lineno=node.lineno)
+        return node
+
+    def visit_Module(self, node: ast.Module) -> ast.AST:
+        self.generic_visit(node)
+        if self.n and not any(isinstance(s, ast.Import) and any(a.name == 'contextlib' and a.asname is None for a in s.names) for s in node.body):
+            k = 1 if node.body and isinstance(node.body[0], ast.Expr) and isinstance(getattr(node.body[0], 'value', None), ast.Constant) else 0
+            while k < len(node.body) and isinstance(node.body[k], ast.ImportFrom) and node.body[k].module == '__future__':
+                k += 1
+            node.body.insert(k, ast.Import(names=[ast.alias(name='contextlib', asname=None)]))
+        return node
+
+
 class _CallRewriter(ast.NodeTransformer):
     """base for the two argument-spelling families: only calls of MODULE-LEVEL functions of the repository, resolved by the name the
     calling module imports or defines (methods are left alone: dynamic dispatch may reach an override with other parameter names)"""
@@ -344,6 +429,7 @@ FAMILIES = {
     'not-form': NotForm, 'return-temp': ReturnTemp, 'test-temp': TestTemp, 'wrap-else': WrapElse, 'unwrap-else': UnwrapElse,
     'swap-branches': SwapBranches, 'swap-ifexp': SwapIfExp, 'nest-and': NestAnd, 'demorgan': DeMorgan,
     'flip-compare': FlipCompare, 'is-not': IsNot, 'len-zero': LenZero, 'aug-assign': AugAssign,
+    'del-to-pop': DelToPop, 'return-bool': ReturnBool, 'suppress': Suppress,
 }
 
 
